@@ -176,9 +176,9 @@ def mutate(rng, s):
 TOKENS = ["-", "+", "--", "+-", "1", "2", "10", "\u00b9", "\u00b2", "\u2460", "\u0661", ":", "a", "b", " ", "\\ ", "\t", "\n", "\r",
           "\u00a0", "\u2003", "\u3000", "max", "min", "parent", "has_child", "name", "unique", "distinct", "MAX", "Max",
           "(", ")", "()", "(a)", "!", "=", "==", "!=", "=~", "^", "$", "%", ">", "<", ">=", "<=", "*", "**", ".", "&", "'", '"',
-          "/", "\\", ",", "~", "\u0000", "\ufeff", "\u200b"]
+          "/", "\\", ",", "~", "\u0000", "\ufeff", "\u200b", "''", '""', "'()'", "'(x)'", '"[a]"', "'a'", "{", "}", "{0}", "{x}"]
 TEMPLATES = ["[%s]", "a[%s]", "/a[%s]/b", "a.b[%s].c", "[%s][%s]", "(%s)", "(a)+(%s)", "[a%s]", "[.%s]", "%s", "a.%s", "/%s/b",
-             "[!%s]", "&%s", "[&%s]", "[%s:%s]"]
+             "[!%s]", "&%s", "[&%s]", "[%s:%s]", "[a=%s]", "[a=%s][b=%s]", "(a)+%s", "(a)-%s", "[name()%s", "/h[has_child(k)%s]"]
 
 
 def token_string(rng):
